@@ -420,6 +420,46 @@ func (e *env) prototypes(c *config.Configuration) {
 		"assertions": map[string]any{"issuers": []string{"iss-certs"}}, "validate_jwk": false, "cache_ttl": longTTL})
 	addAuthn("jw-strict", "jwt", map[string]any{"jwks_endpoint": map[string]any{"url": S + "/jwks/{{ .TokenIssuer }}"},
 		"assertions": map[string]any{"issuers": []string{"iss-certs"}}, "validate_jwk": true, "trust_store": e.pki.TrustStorePath, "cache_ttl": longTTL})
+	// ... all validating, differing in the trust store only: the other root CA, both root CAs, none configured (system trust store)
+	for id, ts := range map[string]string{"jw-strict-b": e.pki2.TrustStorePath, "jw-strict-both": e.trustBoth, "jw-strict-sys": ""} {
+		cfg := map[string]any{"jwks_endpoint": map[string]any{"url": S + "/jwks/{{ .TokenIssuer }}"},
+			"assertions": map[string]any{"issuers": []string{"iss-certs"}}, "validate_jwk": true, "cache_ttl": longTTL}
+		if ts != "" {
+			cfg["trust_store"] = ts
+		}
+		addAuthn(id, "jwt", cfg)
+	}
+	// ... not validating the JWK, differing in exactly one assertion: allowed algorithms, audience, validity leeway
+	for id, as := range map[string]map[string]any{
+		"jw-alg-es": {"allowed_algorithms": []string{"ES256"}}, "jw-alg-ps": {"allowed_algorithms": []string{"PS256", "RS256"}},
+		"jw-aud": {"audience": []string{"payments"}}, "jw-leeway": {"validity_leeway": "30m"},
+	} {
+		as["issuers"] = []string{"iss-certs"}
+		addAuthn(id, "jwt", map[string]any{"jwks_endpoint": map[string]any{"url": S + "/jwks/{{ .TokenIssuer }}"},
+			"assertions": as, "validate_jwk": false, "cache_ttl": longTTL})
+	}
+	addAuthn("in-leeway", "oauth2_introspection", map[string]any{"introspection_endpoint": map[string]any{"url": S + "/introspect"},
+		"assertions": map[string]any{"issuers": []string{"verif-issuer"}, "validity_leeway": "30m"}, "subject": map[string]any{"id": "sub"}, "cache_ttl": longTTL})
+
+	// endpoints answered through the HTTP cache by a remote system which declares its answers to authenticated requests as
+	// cacheable ("public"): the Authorization header is rendered from the subject resp. the presented credential (whatever
+	// shape that has: with, without a scheme), is a static API token of the catalogue entry, or is absent
+	pub := "?cc=public%2C+max-age%3D600&p=shape"
+	hc := map[string]any{"enabled": true}
+	addCtx("hx-auth", map[string]any{"endpoint": map[string]any{"url": S + "/ctx" + pub, "method": "GET",
+		"headers": map[string]any{"Authorization": "{{ .Subject.Attributes.token }}"}, "http_cache": hc}, "cache_ttl": "0s"})
+	addCtx("hx-noauth", map[string]any{"endpoint": map[string]any{"url": S + "/ctx" + pub, "method": "GET", "http_cache": hc}, "cache_ttl": "0s"})
+	for _, k := range []string{"a", "b"} {
+		addCtx("hx-key-"+k, map[string]any{"endpoint": map[string]any{"url": S + "/ctx" + pub, "method": "GET",
+			"headers": map[string]any{"Authorization": "api-token-" + k}, "http_cache": hc}, "cache_ttl": "0s"})
+	}
+	addAuthz("ra-hx-auth", map[string]any{"endpoint": map[string]any{"url": S + "/authz" + pub, "method": "GET",
+		"headers": map[string]any{"Authorization": "{{ .Subject.Attributes.token }}"}, "http_cache": hc},
+		"forward_response_headers_to_upstream": []string{"X-Authz-Echo"}, "cache_ttl": "0s"})
+	addAuthn("ga-hx-auth", "generic", map[string]any{
+		"identity_info_endpoint":     map[string]any{"url": S + "/identity" + pub, "method": "GET", "headers": map[string]any{"Authorization": "{{ .AuthenticationData }}"}, "http_cache": hc},
+		"authentication_data_source": []any{map[string]any{"header": "X-Session"}},
+		"subject":                    map[string]any{"id": "sub"}, "cache_ttl": "0s"})
 
 	// answers with numbers, lists and nested objects (announced as JSON and as YAML), which expressions and later steps look at
 	for _, f := range [][2]string{{"json", ""}, {"yaml", "?ct=application%2Fyaml"}} {
@@ -503,7 +543,11 @@ func (e *env) pairs() {
 	one := "one-component"
 	shift := "boundary-shift"
 
+	concRounds, concEnd := e.r.Pick(1, 4), 0
 	for i := 0; i < reps; i++ {
+		if i == concRounds {
+			concEnd = len(all)
+		}
 		u1, u2 := "u"+rstr(rng, 5), "u"+rstr(rng, 5)
 		r1, r2 := "r"+rstr(rng, 3), "r"+rstr(rng, 3)
 		t1, t2 := "t"+rstr(rng, 3), "t"+rstr(rng, 3)
@@ -661,7 +705,7 @@ func (e *env) pairs() {
 		// two catalogue entries on one identity endpoint: another payload template; session_lifespan absent / present with a
 		// credential whose session is inactive resp. expired
 		add("generic_authenticator", "payload-of-other-prototype", one, gt("ga-realm-a", c1), gt("ga-realm-b", c1))
-		inactive, past := false, time.Now().Add(-time.Hour).Unix()
+		inactive, past, tenMinAgo := false, time.Now().Add(-time.Hour).Unix(), time.Now().Add(-10*time.Minute).Unix()
 		for _, cred := range []string{ck.Opaque{Sub: u1, Active: &inactive, Nonce: x}.Token(), ck.Opaque{Sub: u1, Exp: &past, Nonce: x}.Token()} {
 			add("generic_authenticator", "session-lifespan-of-other-prototype", one, gt("ga-nolife", cred), gt("ga-life", cred))
 		}
@@ -683,6 +727,9 @@ func (e *env) pairs() {
 			in("in-main", tokRead, map[string]any{"assertions": map[string]any{"audience": []string{"payments"}}}))
 		add("oauth2_introspection", "other-prototype-assertions", one, in("in-main", tokRead, nil), in("in-strict", tokRead, nil))
 		add("oauth2_introspection", "other-prototype-assertions", one, in("in-main", tokRead, nil), in("in-aud", tokRead, nil))
+		// a token which expired ten minutes ago, for prototypes without and with a generous validity leeway
+		tokOld := ck.Opaque{Sub: u1, Scope: "read", Exp: &tenMinAgo, Nonce: x}.Token()
+		add("oauth2_introspection", "other-prototype-validity-leeway", one, in("in-main", tokOld, nil), in("in-leeway", tokOld, nil))
 
 		// endpoint discovered through metadata: tokens of the metadata issuer, of the public issuer and of a third one, for
 		// prototypes trusting the metadata issuer only (by default / explicitly), the public one only, or both; rule level issuers
@@ -764,9 +811,61 @@ func (e *env) pairs() {
 		add("http_cache", "http-request-body", one, hx("hx-body", sub(u1, r1)), hx("hx-body", sub(u2, r1)))
 		add("http_cache", "http-vary-header", one, hx("hx-vary", sub(u1, r1)), hx("hx-vary", sub(u2, r1)))
 		add("http_cache", "http-url", one, hx("hx-url", sub(u1, r1)), hx("hx-url", sub(u2, r1)))
+
+		// shapes of the Authorization header sent to an endpoint whose (public cacheable) answers go through the HTTP cache:
+		// the two requests of a pair present different credentials in the same shape, or differ in the scheme / in having one
+		ta, tb := "A"+rstr(rng, 8), "B"+rstr(rng, 8)
+		tokSub := func(tok string) *ck.SubjectSpec {
+			return &ck.SubjectSpec{ID: u1, Attributes: map[string]any{"role": r1, "a0": "x", "token": tok}}
+		}
+		for _, sh := range authorizationShapes(ta, tb) {
+			cls := one
+			if sh.name == "scheme-credentials-boundary" {
+				cls = shift
+			}
+			add("http_cache", "http-authorization-shape:"+sh.name, cls, hx("hx-auth", tokSub(sh.a)), hx("hx-auth", tokSub(sh.b)))
+			add("http_cache", "http-authorization-shape:"+sh.name, cls, raP("ra-hx-auth", ck.Step{Subject: tokSub(sh.a)}, nil), raP("ra-hx-auth", ck.Step{Subject: tokSub(sh.b)}, nil))
+		}
+		add("http_cache", "http-authorization-shape:absent-vs-no-scheme", one, hx("hx-noauth", sub(u1, r1)), hx("hx-auth", tokSub(tb)))
+		add("http_cache", "http-authorization-shape:absent-vs-bearer", one, hx("hx-noauth", sub(u1, r1)), hx("hx-auth", tokSub("Bearer "+tb)))
+		add("http_cache", "http-authorization-shape:static-token-of-other-prototype", one, hx("hx-key-a", sub(u1, r1)), hx("hx-key-b", sub(u1, r1)))
+		add("http_cache", "http-authorization-shape:static-token-vs-absent", one, hx("hx-key-a", sub(u1, r1)), hx("hx-noauth", sub(u1, r1)))
+		// the credential presented by the client, forwarded as it is resp. with the scheme the client used
+		add("http_cache", "http-authorization-shape:presented-credential-no-scheme", one, gt("ga-hx-auth", c1), gt("ga-hx-auth", c2))
+		add("http_cache", "http-authorization-shape:presented-credential-bearer", one, gt("ga-hx-auth", "Bearer "+c1), gt("ga-hx-auth", "Bearer "+c2))
 	}
+	if concEnd == 0 {
+		concEnd = len(all)
+	}
+	e.conc = append(e.conc, all[:concEnd]...)
 	for _, pc := range all {
 		e.runPair(pc)
+	}
+}
+
+// authShape is a pair of Authorization header values.
+type authShape struct{ name, a, b string }
+
+// authorizationShapes: the credentials ta / tb in the shapes an Authorization value takes in practice. Values which differ
+// only in what RFC 9110 declares insignificant (case of the scheme, number of blanks) are never paired with each other.
+func authorizationShapes(ta, tb string) []authShape {
+	return []authShape{
+		{"no-scheme", ta, tb},
+		{"bearer", "Bearer " + ta, "Bearer " + tb},
+		{"lower-case-scheme", "bearer " + ta, "bearer " + tb},
+		{"upper-case-scheme", "BEARER " + ta, "BEARER " + tb},
+		{"several-blanks", "Bearer   " + ta, "Bearer   " + tb},
+		{"tab", "Bearer\t" + ta, "Bearer\t" + tb},
+		{"leading-blank", " " + ta, " " + tb},
+		{"trailing-blank", ta + " ", tb + " "},
+		{"empty-vs-no-scheme", "", tb},
+		{"empty-vs-bearer", "", "Bearer " + tb},
+		{"other-scheme", "Bearer " + ta, "Basic " + ta},
+		{"scheme-vs-no-scheme", "Bearer " + ta, ta},
+		{"scheme-only", "Negotiate", "NTLM"},
+		{"credentials-with-parameters", "Digest username=" + ta + ", nc=1", "Digest username=" + ta + ", nc=2"},
+		{"scheme-credentials-boundary", "ab" + ta + " c", "a b" + ta + "c"},
+		{"scheme-credentials-boundary", "ab " + ta, "a b" + ta},
 	}
 }
 
@@ -795,13 +894,15 @@ func (e *env) jwtPairs(add func(mechanism, component, class string, a, b mstep),
 		// keys whose certificate a validating authenticator rejects: issued by a CA which is not in the trust store,
 		// issued by the trusted CA for another key usage; and one it accepts
 		end := now.Add(24 * time.Hour)
-		if rogue, err := ck.NewPKI(e.dir); err == nil {
-			e.jwtKeys["untrusted"], _ = rogue.NewKey("untrusted", &end)
-		}
+		// ("untrusted": by the first root CA; it is the second root CA which issued it)
+		e.jwtKeys["untrusted"], _ = e.pki2.NewKey("untrusted", &end)
 		e.jwtKeys["usage"], _ = e.pki.NewKeyWithUsage("usage", &end, x509.KeyUsageKeyEncipherment)
 		e.jwtKeys["trusted"], _ = e.pki.NewKey("trusted", &end)
+		// certificates issued by an intermediate CA of the first resp. the second root CA (x5c: leaf, intermediate)
+		e.jwtKeys["via-first"], _ = e.pki.NewKeyVia("via-first", end, end)
+		e.jwtKeys["via-second"], _ = e.pki2.NewKeyVia("via-second", end, end)
 		var ks []*ck.SigningKey
-		for _, n := range []string{"untrusted", "usage", "trusted"} {
+		for _, n := range []string{"untrusted", "usage", "trusted", "via-first", "via-second"} {
 			if e.jwtKeys[n] != nil {
 				ks = append(ks, e.jwtKeys[n])
 			}
@@ -816,6 +917,28 @@ func (e *env) jwtPairs(add func(mechanism, component, class string, a, b mstep),
 		lax, strict := mk("iss-certs", n, u1, k[n]), mk("iss-certs", n, u1, k[n])
 		lax.Proto, strict.Proto = "jw-lax", "jw-strict"
 		add("jwt_authenticator", "jwk-validation-of-other-prototype:"+n+"-certificate", "one-component", lax, strict)
+	}
+	// validating authenticators on one JWKS endpoint which differ in the trust store only
+	for _, n := range []string{"trusted", "untrusted", "via-first", "via-second"} {
+		if k[n] == nil {
+			continue
+		}
+		for _, pp := range [][2]string{{"jw-strict", "jw-strict-b"}, {"jw-strict", "jw-strict-both"}, {"jw-strict-b", "jw-strict-both"},
+			{"jw-strict", "jw-strict-sys"}, {"jw-strict-both", "jw-strict-sys"}} {
+			ma, mb := mk("iss-certs", n, u1, k[n]), mk("iss-certs", n, u1, k[n])
+			ma.Proto, mb.Proto = pp[0], pp[1]
+			add("jwt_authenticator", "trust-store-of-other-prototype:"+n+"-certificate:"+pp[0]+"/"+pp[1], "one-component", ma, mb)
+		}
+	}
+	// not validating authenticators on one JWKS endpoint which differ in one assertion only (assertions are evaluated per request)
+	if k["trusted"] != nil {
+		with := func(proto string, m mstep) mstep { m.Proto = proto; return m }
+		tok := mk("iss-certs", "trusted", u1, k["trusted"])
+		add("jwt_authenticator", "other-prototype-allowed-algorithms", "one-component", with("jw-alg-es", tok), with("jw-alg-ps", tok))
+		add("jwt_authenticator", "other-prototype-audience", "one-component", with("jw-lax", tok), with("jw-aud", tok))
+		old, _ := k["trusted"].SignJWT(map[string]any{"iss": "iss-certs", "sub": u1, "exp": now.Add(-10 * time.Minute).Unix(), "iat": now.Add(-20 * time.Minute).Unix()})
+		expired := mstep{Kind: "authn", Step: ck.Step{Req: ck.Req{Headers: hdr("Authorization", "Bearer "+old)}}}
+		add("jwt_authenticator", "other-prototype-validity-leeway", "one-component", with("jw-lax", expired), with("jw-leeway", expired))
 	}
 	// keys discovered through the metadata document: issuers trusted by default (metadata), explicitly, on rule level
 	mi := e.metadataIssuer()
